@@ -6,7 +6,7 @@
    with a non-NOT row and exactly those direct terms, C01-C03 statements on everything derived).
    The theorems are about the byte-level text functions of the Gallina transcription
    (Model/Text.v).  PARTIAL: the file-level statement parse(render F) = F is not yet a theorem. *)
-From HpoV Require Import Gen.Consts Model.Base Model.Group Model.Onto Model.Binary Model.TermId Model.Text Proofs.C09P Proofs.C20P.
+From HpoV Require Import Gen.Consts Model.Base Model.Group Model.Onto Model.Binary Model.TermId Model.Text Proofs.C09P Proofs.C20P Proofs.C09G.
 
 Theorem C09_split_inverts_join : forall b ps, ps <> [] -> Forall (no_byte b) ps ->
   split_byte b (join_byte b ps) [] = ps.
@@ -66,6 +66,31 @@ Theorem C09_read_obo_file : forall header (stanzas : list (term * list (N * byte
     Ok (set_arena a o1).
 Proof. exact read_obo_render. Qed.
 
+(* THE GENE FILE (genes_to_phenotype.txt / phenotype_to_genes.txt): header line + rows, with or without
+   a final newline, is read as exactly one annotate_gene call per row, in file order *)
+Theorem C09_gene_file : forall tr hdr rows (final_nl : bool) o, gene_header_ok hdr -> rows <> [] ->
+  Forall gene_row_ok rows ->
+  parse_gene_file tr (hdr ++ NL :: join_byte NL (map (gene_line tr) rows) ++ (if final_nl then [NL] else [])) o
+  = foldM gene_step rows o.
+Proof. exact parse_gene_file_render. Qed.
+
+(* phenotype.hpoa: any mix of comment / header / other-database lines and OMIM / ORPHA rows is read as
+   one annotate_omim_disease / annotate_orpha_disease call per non-NOT row; NOT rows and all other
+   lines contribute nothing *)
+Theorem C09_hpoa_file : forall items (final_nl : bool) o, items <> [] -> Forall item_ok items ->
+  parse_hpoa (join_byte NL (map item_line items) ++ (if final_nl then [NL] else [])) o = foldM hpoa_step items o.
+Proof. exact parse_hpoa_render. Qed.
+
+(* rows rendered from ids (decimal of any width, HP:%07d) meet the premises *)
+Theorem C09_rendered_gene_row : forall k g sym h mid extra, (0 < k)%nat -> g < 10 ^ N.of_nat k -> g <= U32_MAX -> h <= U32_MAX ->
+  Forall field (sym :: mid :: extra) -> gene_row_ok (mkGeneRow (digits k g) g sym (show h) h mid extra).
+Proof. exact rendered_gene_row_ok. Qed.
+
+Theorem C09_rendered_disease_row : forall om k d name isnot q h tail, (0 < k)%nat -> d < 10 ^ N.of_nat k -> d <= U32_MAX -> h <= U32_MAX ->
+  field name -> field q -> q <> s_NOT -> clean tail -> tail <> [] -> is_ws (last tail 0) = false ->
+  dis_row_ok (mkDisRow om (digits k d) d name isnot q (show h) h tail).
+Proof. exact rendered_dis_row_ok. Qed.
+
 Print Assumptions C09_split_inverts_join.
 Print Assumptions C09_strip_prefix.
 Print Assumptions C09_key_value_line.
@@ -76,3 +101,7 @@ Print Assumptions C09_term_stanza.
 Print Assumptions C09_term_stanza_connections.
 Print Assumptions C09_split_inverts_blank_join.
 Print Assumptions C09_read_obo_file.
+Print Assumptions C09_gene_file.
+Print Assumptions C09_hpoa_file.
+Print Assumptions C09_rendered_gene_row.
+Print Assumptions C09_rendered_disease_row.
